@@ -840,7 +840,15 @@ class Program:
             elif name in LIBC_NORET:
                 out.add("ext:exit")
             elif name in LIBC_FILES:
-                who = sorted(a[2:].split("@")[0] for a in (ev["a"][0] if ev["a"] else []) if a.startswith("g:"))
+                atoms = ev["a"][0] if ev["a"] else []
+                who = sorted(a[2:].split("@")[0] for a in atoms if a.startswith("g:"))
+                if not who and F in self.fn and name in ("unlink", "remove"):
+                    # the file name is a parameter of F (a thin wrapper such as UnlinkIfRegular(name)): resolved at F's call sites
+                    params = self.fn[F]["params"]
+                    idx = [params.index(a[2:]) for a in atoms if a.startswith("l:") and a[2:] in params]
+                    if idx:
+                        out.add("ext:%s(@%d)" % (name, idx[0]))
+                        return out, ops
                 out.add("ext:%s(%s)" % (name, ",".join(who) if who else "?"))
             else:
                 self.extern_called.add(name)
@@ -927,6 +935,18 @@ class Program:
             if o.startswith("io:@"):
                 i = int(o[4:])
                 out.add(self.stream_key(F, ev["a"][i]) if i < len(ev["a"]) else "io:?")
+            elif o.startswith("ext:") and "(@" in o:
+                name, i = o[4:o.index("(")], int(o[o.index("(@") + 2:-1])
+                atoms = ev["a"][i] if i < len(ev["a"]) else []
+                who = sorted(a[2:].split("@")[0] for a in atoms if a.startswith("g:"))
+                params = self.fn[F]["params"] if F in self.fn else []
+                idx = [params.index(a[2:]) for a in atoms if a.startswith("l:") and a[2:] in params]
+                if who:
+                    out.add("ext:%s(%s)" % (name, ",".join(who)))
+                elif idx:
+                    out.add("ext:%s(@%d)" % (name, idx[0]))
+                else:
+                    out.add("ext:%s(?)" % name)
             else:
                 out.add(o)
         return out
@@ -1165,6 +1185,9 @@ def analyse(files, res, seed):
             add(IOT, (F, int(key[4:])), own)
             for r in own:
                 rows.add((r, F, kind, "io:(stream parameter)", via))
+        elif key.startswith("ext:") and "(@" in key:
+            # removal of a file whose name is a parameter of F (thin wrapper): accounted at the call sites, where the name is known
+            return
         elif key[:2] in ("g:", "h:") or key[:3] in ("io:",) or key[:4] in ("ext:",) or key[:5] in ("call:",):
             for r, _v in taint:
                 row = (r, F, kind, key, via)
